@@ -109,6 +109,75 @@ class PB:
         return rets[:4]
 
 
+def carried_types(rng, pool=("i32", "index", "i64"), weights=(0, 1, 1, 2, 2, 3)):
+    """Types of the loop-carried values: mostly REPEATED types, so that yields can permute / rotate them."""
+    nit = rng.choice(weights)
+    if nit <= 1 or rng.random() < 0.3:
+        return [rng.choice(pool) for _ in range(nit)]
+    base = rng.choice(pool)
+    return [base if rng.random() < 0.85 else rng.choice(pool) for _ in range(nit)]
+
+
+def carried_yield(pb, rng, e2, ind, accs, types, news, iv=None, ivtype="index", invariant=()):
+    """Operands of the loop terminator. Besides the usual `new value per position` this produces the shapes in
+    which the carried values must be re-bound SIMULTANEOUSLY: swap / rotation / shift register of the block
+    arguments, the same value at two positions, a block argument passed through unchanged, an outer
+    loop-invariant value, the induction variable (cast when the types differ)."""
+    n = len(accs)
+    ys = list(news)
+    if n == 0:
+        return ys
+    same = {}
+    for k, t in enumerate(types):
+        same.setdefault(t, []).append(k)
+    groups = [g for g in same.values() if len(g) >= 2]
+    r = rng.random()
+    if groups and r < 0.45:
+        g = rng.choice(groups)
+        mode = rng.choice(["swap", "rotate", "shift", "dup", "mixed"])
+        if mode == "swap":
+            a, b = rng.sample(g, 2)
+            ys[a], ys[b] = accs[b], accs[a]
+        elif mode == "rotate":
+            sh = rng.choice([1, len(g) - 1])
+            for j, k in enumerate(g):
+                ys[k] = accs[g[(j + sh) % len(g)]]
+        elif mode == "shift":       # yield %new, %x, %y
+            for j in range(len(g) - 1, 0, -1):
+                ys[g[j]] = accs[g[j - 1]]
+            ys[g[0]] = news[g[0]]
+        elif mode == "dup":         # the same value in two positions
+            v = rng.choice([news[g[0]], accs[g[-1]], accs[g[0]]])
+            a, b = rng.sample(g, 2)
+            ys[a] = ys[b] = v
+        else:                       # an earlier block argument at a later position, a new value at the earlier one
+            a, b = sorted(rng.sample(g, 2))
+            ys[b] = accs[a]
+            ys[a] = news[b] if rng.random() < 0.5 else news[a]
+    for k, t in enumerate(types):
+        r = rng.random()
+        if r < 0.08:
+            ys[k] = accs[k]                                  # pass-through
+        elif r < 0.14:
+            inv = [v for v, tt in invariant if tt == t]
+            if inv:
+                ys[k] = rng.choice(inv)                      # outer loop-invariant value
+        elif r < 0.20 and iv is not None:
+            if t == ivtype:
+                ys[k] = iv
+            elif {t, ivtype} == {"index", "i32"} or {t, ivtype} == {"index", "i64"}:
+                c = pb.fresh("t")
+                pb.emit(ind, f"{c} = arith.index_cast {iv} : {ivtype} to {t}")
+                ys[k] = c
+    return ys
+
+
+def observe_results(pb, rng, ind, outs, types, p=0.6):
+    """Make every loop result observable in the effect log (the returned values are a random subset)."""
+    if outs and rng.random() < p:
+        pb.emit(ind, f'"test.op"({", ".join(outs)}) : ({", ".join(types)}) -> ()')
+
+
 def env_of(args):
     return [(a, t) for a, t, _ in args]
 
@@ -240,8 +309,8 @@ class Scf2Cf:
         rng, pb = self.rng, self.pb
         self.mark(in_while)
         lb, ub, st = self.for_bounds(env, ind)
-        nit = rng.choice([0, 1, 1, 2])
-        types = [rng.choice(["i32", "index", "i64"]) for _ in range(nit)]
+        types = carried_types(rng)
+        nit = len(types)
         inits = [pb.pick(env, t, ind) for t in types]
         iv = pb.fresh("i")
         accs = [pb.fresh("a") for _ in range(nit)]
@@ -260,9 +329,10 @@ class Scf2Cf:
         if nit == 0 or rng.random() < 0.5:
             pb.effect(e2, ind + 1, (iv, "index") if rng.random() < 0.5 else None)
         if nit:
-            ys = [nv if rng.random() < 0.8 else pb.pick(e2, t, ind + 1) for nv, t in zip(news, types)]
+            ys = carried_yield(pb, rng, e2, ind + 1, accs, types, news, iv, "index", env)
             pb.emit(ind + 1, f"scf.yield {', '.join(ys)} : {', '.join(types)}")
         pb.emit(ind, "}")
+        observe_results(pb, rng, ind, outs, types)
         env.extend(zip(outs, types))
 
     def while_(self, env, ind, depth):
@@ -353,8 +423,8 @@ def gen_unroll(rng):
                 c7 = pb.const(ind, 7, "i32")
                 ub = pb.fresh()
                 pb.emit(ind, f"{ub} = arith.andi %x, {c7} : i32")
-        nit = rng.choice([0, 1, 1, 2])
-        types = [rng.choice(["i32", "index", "i64"]) for _ in range(nit)]
+        types = carried_types(rng)
+        nit = len(types)
         inits = [pb.pick(env, t, ind) for t in types]
         iv = pb.fresh("i")
         accs = [pb.fresh("a") for _ in range(nit)]
@@ -381,12 +451,10 @@ def gen_unroll(rng):
         if nit == 0:
             pb.effect(e2, ind + 1, (iv, ity) if rng.random() < 0.6 else None)
         if nit:
-            ys = []
-            for nv, a, t in zip(news, accs, types):
-                r = rng.random()
-                ys.append(nv if r < 0.7 else a if r < 0.8 else iv if (r < 0.9 and t == ity) else pb.pick(e2, t, ind + 1))
+            ys = carried_yield(pb, rng, e2, ind + 1, accs, types, news, iv, ity, env)
             pb.emit(ind + 1, f"scf.yield {', '.join(ys)} : {', '.join(types)}")
         pb.emit(ind, "}")
+        observe_results(pb, rng, ind, outs, types)
         env.extend(zip(outs, types))
 
     pb.filler(env, 1, rng.randint(0, 2))
@@ -481,8 +549,8 @@ def gen_lower_affine(rng):
         lbv = rng.choice([0, 0, 0, 1, 2, -1, -2, 3])
         ubv = lbv + rng.choice([0, 1, 2, 3, 4, 5, 6, -2])
         stepv = rng.choice([1, 1, 1, 2, 3])
-        nit = rng.choice([0, 1, 1, 2])
-        types = [rng.choice(["i32", "index"]) for _ in range(nit)]
+        types = carried_types(rng, pool=("i32", "index"))
+        nit = len(types)
         inits = [pb.pick(env, t, ind) for t in types]
         iv = pb.fresh("i")
         accs = [pb.fresh("a") for _ in range(nit)]
@@ -518,11 +586,12 @@ def gen_lower_affine(rng):
                 pb.filler(e2, ind + 1, 1, depth=2)
             else:
                 pb.effect(e2, ind + 1)
-        ys = [nv if rng.random() < 0.8 else pb.pick(e2, t, ind + 1) for nv, t in zip(news, types)]
+        ys = carried_yield(pb, rng, e2, ind + 1, accs, types, news, iv, "index", env)
         pb.emit(ind + 1, f'"affine.yield"({", ".join(ys)}) : ({", ".join(types)}) -> ()')
         ft = f'({", ".join(["index"] * len(bops) + types)}) -> ({", ".join(types)})' if nit else \
             f'({", ".join(["index"] * len(bops))}) -> ()'
         pb.emit(ind, f"}}) : {ft}")
+        observe_results(pb, rng, ind, outs, types)
         env.extend(zip(outs, types))
         st["sites"] += 1
 
@@ -574,14 +643,18 @@ def gen_range_folding(rng):
         r = rng.random()
         ub = pb.const(ind, rng.choice([0, 1, 3, 4, 5, 6])) if r < 0.45 else "%n" if r < 0.85 else pb.masked(ind, "%n", 7)
         st = pb.const(ind, rng.choice([1, 1, 2, 3])) if rng.random() < 0.8 else pb.pos_step(env, ind, "%lo")
-        nit = rng.choice([0, 1, 1])
-        init = pb.pick(env, "index", ind) if nit else None
-        iv, acc, out = pb.fresh("i"), pb.fresh("a"), pb.fresh("r")
+        nit = rng.choice([0, 1, 1, 2, 3])
+        inits = [pb.pick(env, "index", ind) for _ in range(nit)]
+        iv = pb.fresh("i")
+        accs = [pb.fresh("a") for _ in range(nit)]
+        outs = [pb.fresh("r") for _ in range(nit)]
         if nit:
-            pb.emit(ind, f"{out} = scf.for {iv} = {lb} to {ub} step {st} iter_args({acc} = {init}) -> (index) {{")
+            ia = ", ".join(f"{a} = {i}" for a, i in zip(accs, inits))
+            pb.emit(ind, f"{', '.join(outs)} = scf.for {iv} = {lb} to {ub} step {st} iter_args({ia}) -> "
+                         f"({', '.join(['index'] * nit)}) {{")
         else:
             pb.emit(ind, f"scf.for {iv} = {lb} to {ub} step {st} {{")
-        e2 = list(env) + [(iv, "index")] + ([(acc, "index")] if nit else [])
+        e2 = list(env) + [(iv, "index")] + [(a, "index") for a in accs]
         cur = iv
         mode = rng.random()
         in_if = trigger and mode < 0.12
@@ -621,13 +694,18 @@ def gen_range_folding(rng):
         if rng.random() < 0.4:
             pb.filler(e2, ind + 1, 1, depth=2)
         if nit:
-            nv = pb.fresh("t")
-            src = cur_outer or pb.pick(e2, "index", ind + 1)
-            pb.emit(ind + 1, f"{nv} = arith.{rng.choice(['addi', 'xori'])} {acc}, {src} : index")
-            pb.emit(ind + 1, f"scf.yield {nv} : index")
+            news = []
+            for acc in accs:
+                nv = pb.fresh("t")
+                src = cur_outer or pb.pick(e2, "index", ind + 1)
+                pb.emit(ind + 1, f"{nv} = arith.{rng.choice(['addi', 'xori'])} {acc}, {src} : index")
+                news.append(nv)
+            # (the induction variable itself is never yielded here: a second use would switch the folding off)
+            ys = carried_yield(pb, rng, e2, ind + 1, accs, ["index"] * nit, news, None, "index", env)
+            pb.emit(ind + 1, f"scf.yield {', '.join(ys)} : {', '.join(['index'] * nit)}")
         pb.emit(ind, "}")
-        if nit:
-            env.append((out, "index"))
+        observe_results(pb, rng, ind, outs, ["index"] * nit)
+        env.extend((o, "index") for o in outs)
 
     pb.filler(env, 1, rng.randint(0, 2))
     for _ in range(rng.randint(1, 2)):
@@ -657,7 +735,7 @@ def gen_flatten(rng):
     def nest(env, ind):
         used = rng.random() < 0.45
         sound = rng.random() < 0.6
-        iters = rng.random() < 0.3
+        iters = rng.random() < 0.4
         triple = (not used) and rng.random() < 0.15
         mism = rng.random() < 0.12   # shape the pass must not match
         if used:
@@ -689,13 +767,18 @@ def gen_flatten(rng):
         oi, ii = pb.fresh("i"), pb.fresh("j")
         if iters:
             t = rng.choice(["index", "i32"])
-            init = pb.pick(env, t, ind)
-            oa, ia, orr, irr = pb.fresh("a"), pb.fresh("b"), pb.fresh("r"), pb.fresh("q")
-            pb.emit(ind, f"{orr} = scf.for {oi} = {olb} to {oub} step {c_ost} iter_args({oa} = {init}) -> ({t}) {{")
+            nc = rng.choice([1, 1, 2, 2, 3])
+            tys = ", ".join([t] * nc)
+            inits = [pb.pick(env, t, ind) for _ in range(nc)]
+            oas, ias = [pb.fresh("a") for _ in range(nc)], [pb.fresh("b") for _ in range(nc)]
+            orrs, irrs = [pb.fresh("r") for _ in range(nc)], [pb.fresh("q") for _ in range(nc)]
+            pb.emit(ind, f"{', '.join(orrs)} = scf.for {oi} = {olb} to {oub} step {c_ost} iter_args("
+                         f"{', '.join(f'{a} = {i}' for a, i in zip(oas, inits))}) -> ({tys}) {{")
             if mism and rng.random() < 0.5:
-                pb.emit(ind + 1, f'"test.op"({oa}) : ({t}) -> ()')
-            pb.emit(ind + 1, f"{irr} = scf.for {ii} = {c_ilb} to {c_iub} step {c_ist} iter_args({ia} = {oa}) -> ({t}) {{")
-            e2 = list(env) + [(ia, t)]
+                pb.emit(ind + 1, f'"test.op"({oas[0]}) : ({t}) -> ()')
+            pb.emit(ind + 1, f"{', '.join(irrs)} = scf.for {ii} = {c_ilb} to {c_iub} step {c_ist} iter_args("
+                             f"{', '.join(f'{b} = {a}' for b, a in zip(ias, oas))}) -> ({tys}) {{")
+            e2 = list(env) + [(b, t) for b in ias]
             ind3 = ind + 2
         else:
             pb.emit(ind, f"scf.for {oi} = {olb} to {oub} step {c_ost} {{")
@@ -726,14 +809,24 @@ def gen_flatten(rng):
                 pb.emit(ind3, f'"test.op"({rng.choice([oi, ii])}) : (index) -> ()')
             body_effects(e2, ind3, [("%x", "i32"), ("%y", "index")])
         if iters:
-            nv = pb.fresh("t")
-            other = vals[0][0] if (vals and t == "index") else pb.pick(e2, t, ind3)
-            pb.emit(ind3, f"{nv} = arith.{rng.choice(['addi', 'xori', 'muli'])} {ia}, {other} : {t}")
-            pb.emit(ind3, f"scf.yield {nv} : {t}")
+            news = []
+            for ia in ias:
+                nv = pb.fresh("t")
+                other = vals[0][0] if (vals and t == "index") else pb.pick(e2, t, ind3)
+                pb.emit(ind3, f"{nv} = arith.{rng.choice(['addi', 'xori', 'muli'])} {ia}, {other} : {t}")
+                news.append(nv)
+            # permuted / rotated / duplicated / pass-through carried values (never an induction variable: its uses
+            # decide whether the pass fires)
+            ys = carried_yield(pb, rng, e2, ind3, ias, [t] * nc, news, None, "index", env)
+            pb.emit(ind3, f"scf.yield {', '.join(ys)} : {tys}")
             pb.emit(ind + 1, "}")
-            pb.emit(ind + 1, f"scf.yield {irr} : {t}")
+            oy = list(irrs)
+            if nc > 1 and rng.random() < 0.1:
+                oy.reverse()   # outer yield does not forward in order: the pass must leave the nest alone
+            pb.emit(ind + 1, f"scf.yield {', '.join(oy)} : {tys}")
             pb.emit(ind, "}")
-            env.append((orr, t))
+            observe_results(pb, rng, ind, orrs, [t] * nc)
+            env.extend((o, t) for o in orrs)
         else:
             pb.emit(ind + 1, "}")
             if mism and rng.random() < 0.3:
@@ -821,8 +914,8 @@ def gen_licm(rng):
         lb = pb.const(ind, rng.choice([0, 0, 1, 2]))
         ub = "%n" if r < 0.55 else pb.const(ind, rng.choice([0, 0, 1, 3, 4, -1])) if r < 0.9 else pb.masked(ind, "%n", 3)
         st = pb.const(ind, rng.choice([1, 1, 2]))
-        nit = rng.choice([0, 1, 1, 2])
-        types = [rng.choice(["i32", "index", "i64"]) for _ in range(nit)]
+        types = carried_types(rng)
+        nit = len(types)
         inits = [pb.pick(env, t, ind) for t in types]
         iv = pb.fresh("i")
         accs = [pb.fresh("a") for _ in range(nit)]
@@ -890,10 +983,13 @@ def gen_licm(rng):
                 nv = pb.fresh("t")
                 pb.emit(ind + 1, f"{nv} = arith.{rng.choice(['addi', 'xori'])} {a}, {rng.choice(c) if c else a} : {t}")
                 ys.append(nv)
+            # invariant values (hoisted by the pass) may be yielded too
+            ys = carried_yield(pb, rng, e2, ind + 1, accs, types, ys, iv, "index", inv)
             pb.emit(ind + 1, f"scf.yield {', '.join(ys)} : {', '.join(types)}")
         else:
             pb.effect(e2, ind + 1, rng.choice([x for x in e2 if x[1] in W]))
         pb.emit(ind, "}")
+        observe_results(pb, rng, ind, outs, types)
         env.extend(zip(outs, types))
 
     pb.filler(env, 1, rng.randint(0, 2))
